@@ -641,6 +641,8 @@ def run(chk, prog):
     # ---- R8: the stored CSR intensity of bunch n is the sum of the stored spectrum of bunch n (decided under C07 R1; re-evaluated here) -------
     from .common import reeval
     reeval(chk, prog, "C07", lambda i: i["rule"] == "R1" and "intensity" in i["what"], "R8", "R8-intensity-is-sum-of-spectrum", 2)
+    # ---- R9: "the stored wake potential is the convolution of that profile with the stored impedance" (C06 R1-R4; re-evaluated here) -----
+    reeval(chk, prog, "C06", lambda i: i["rule"] in ("R1", "R2", "R3", "R4"), "R9", "R9-wake-is-the-convolution", 20)
     # ---- RD: dimensional consistency of the quantities this property depends on (sa/dims.py) ----------------------------------------
     from . import dimrules
     nrd = dimrules.run(chk, prog, "RD")
